@@ -502,6 +502,8 @@ def check_c10(ctx):
     rep.nontrivial |= rep2.nontrivial
     for k, n in rep2.counts.items():
         rep.counts['nobase:' + k] = n
+    # a schema that is its own root (nil root), alone and in sequences through one caller cache
+    cache_sequences(ctx, rep)
     return rep.finish(
         'model_checking',
         'Every referable element (definition / parameter / response) of every enumerated root is expanded through every '
@@ -592,6 +594,7 @@ def check_c18(ctx):
                       sample=lambda o, v: o.get('cache') in ('reuse', 'preload') and len(o['loadss']) > 0,
                       post=c18_transparency)
     repo_suite_traces(ctx, rep)
+    cache_sequences(ctx, rep)
     return rep.finish(
         'model_checking',
         'Every enumerated multi-document graph; every definition expanded by ExpandSchemaWithBasePath / ExpandSchema with: no '
@@ -605,6 +608,40 @@ def check_c18(ctx):
         'fixtures) is cut into one event trace per call and validated by TraceOracle.tla / ExpTrace.tla (no miss on a stored '
         'document, no loader call without a preceding miss; cycle-test conformance counted as drift).',
         ASSUME)
+
+
+def cache_sequences(ctx, rep):
+    """CacheSeq.tla: sequences of calls through one caller-supplied cache (transparency, fetched at most once)."""
+    maxlen = 3 if ctx.tier == 'thorough' else 2
+    cases = ctx.path('cacheseq.ndjson')
+    cfg = 'CONSTANTS\nMaxLen = %d\nMode = "gen"\nInFile = ""\nOutFile = "%s"\nSPECIFICATION Spec\nINVARIANT AnswersIndependent\nPROPERTY CacheMonotone\n' % (maxlen, cases)
+    vlib.model_check(ctx, 'CacheSeq', cfg, 'seq_L%d' % maxlen, workers=2)
+    obsfiles = vlib.run_worker(ctx, 'cacheseq', cases, [], prefix='cseq', shards=8)
+    for o, v in vlib.run_oracle(ctx, 'CacheSeq', obsfiles, consts={'MaxLen': str(maxlen), 'Mode': '"judge"'}, cfg_names=('InFile', 'OutFile')):
+        rep.evaluations += 1
+        if len(o['seq']) > 1 and o['mode'] == 'reuse':
+            rep.nontrivial.add(hashlib.sha1(json.dumps([o['seq'], o['api']]).encode()).digest()[:8])
+        for pn in ('c18seqtransparent', 'c18seqonce'):
+            rep.count(pn + ':' + v[pn])
+            if v[pn] == 'fail':
+                rep.fail(pn, {'family': 'cacheseq', 'seq': o['seq'], 'api': o['api'], 'mode': o['mode'], 'steps': o['steps']}, [],
+                         'calls %s through %s, cache mode %s: %s' % (o['seq'], o['api'], o['mode'], [
+                             (s['name'], s['out'][:70], 'solo=' + s['solo'][:70], s['loads']) for s in o['steps']]))
+
+
+def replay_cacheseq(ctx, rec):
+    vlib.build_worker(ctx)
+    c = rec['case']
+    f = ctx.path('replay_cseq.ndjson')
+    open(f, 'w').write(json.dumps({'seq': c['seq'], 'api': c['api']}) + '\n')
+    obsfiles = vlib.run_worker(ctx, 'cacheseq', f, [], shards=1, prefix='replay')
+    bad = 0
+    for o, v in vlib.run_oracle(ctx, 'CacheSeq', obsfiles, consts={'MaxLen': '3', 'Mode': '"judge"'}, cfg_names=('InFile', 'OutFile')):
+        if o['mode'] == c['mode']:
+            print(json.dumps({'mode': o['mode'], 'steps': o['steps'], 'verdict': v}, indent=1))
+            bad += v.get(rec['predicate']) == 'fail'
+    print('REPRODUCED' if bad else 'NOT-REPRODUCED')
+    return 1 if bad else 0
 
 
 def c18_transparency(rep, pairs):
@@ -653,3 +690,4 @@ def replay(ctx, rec):
 
 CHECKS = {'C02': check_c02, 'C03': check_c03, 'C04': check_c04, 'C08': check_c08, 'C09': check_c09, 'C10': check_c10,
           'C18': check_c18}
+REPLAY = {'expander': replay, 'cacheseq': replay_cacheseq}
